@@ -951,8 +951,9 @@ class AnsiString:
             obj._s = fillchar * left_spaces + obj._s + fillchar * right_spaces
             if extend_formatting:
                 # Move the removal settings from previous end to new end (formats the right fillchars with same as last char)
+                # Note: all indices, including this one, are shifted by left_spaces below
                 if old_len in obj._fmts:
-                    obj._fmts[len(obj._s)] = obj._fmts.pop(old_len)
+                    obj._fmts[old_len + right_spaces] = obj._fmts.pop(old_len)
             # Shift all indices except for the origin
             # (formats the left fillchars with same as first char when extend_formatting==True)
             obj._shift_settings_idx(left_spaces, extend_formatting)
